@@ -398,6 +398,26 @@ class Gen:
             return self.t("joiner")(self.t("fork_deep")(r.randrange(0, 2), r.choice(KINDS)))
         return self.t("first")(self.t("join_all")([self.t("fork_seq")(2), self.t("fork_map")(2)]))
 
+    def shared_failing(self, d):
+        """a FAILING term X used twice under one parent: first where its failure is absorbed (catch / catch_all / a thread that
+        is never joined), then - sequenced after the first use has finished - where it is demanded: the second use raises"""
+        r = self.rng
+        self.f("shared-failing-term")
+        x = self.err(d)
+        absorb = r.choice([lambda: catch(x, Exception, self.t("rec_zero")), lambda: catch_all([x], Exception, self.t("rec_count")),
+                           lambda: catch(self.t("inc")(x), Exception, self.t("rec_val")),
+                           lambda: self.t("const")(0, fork_thread(x))])()
+        k = r.randrange(5)
+        if k == 0:
+            return seq([absorb, x])
+        if k == 1:
+            return seq([absorb, self.t("inc")(x), self.lit()])
+        if k == 2:
+            return cond(absorb == 0, x, 1) if r.random() < 0.5 else cond(absorb, 1, x)
+        if k == 3:
+            return catch(x, Exception, L.pair.partial(x))
+        return [self.t("const")(1, absorb), seq([absorb, [x, self.int(max(d - 1, 0))]])]
+
     def ctx_int(self, d):
         """an int computed by tasks that read the context (default arguments / body), some with their own update_context"""
         r = self.rng
@@ -823,6 +843,8 @@ class Gen:
             return self.shared(depth)
         if self.rng.random() < 0.05:
             return self.fork_multi(depth)
+        if self.rng.random() < 0.06:
+            return self.shared_failing(depth)
         k = self.rng.randrange(10)
         if k <= 3:
             return self.int(depth)
